@@ -267,6 +267,11 @@ class Run:
                 m = c["mcanon"](m)
             self.count(c.get("kind", label), c.get("key", c["cmd"]), c.get("nontrivial", True))
             exp = c.get("oracle")
+            if c.get("rerun") and (c["impl"] != m or (exp is not None and c["impl"] != exp)):
+                # timing-sensitive case: confirm on a slower clock before believing it
+                c["impl_first"] = c["impl"]
+                c["impl"] = c["rerun"]()
+                self.dist["reruns"] = self.dist.get("reruns", 0) + 1
             if m.startswith("driver-error"):
                 bad.append(("model driver error", c, m))
             elif c.get("reject") and (c["impl"].startswith("ok") or c["impl"].startswith("call")):
